@@ -474,6 +474,15 @@ pub fn step<Q: QueueLike>(q: &mut Q, op: &Op, m: &mut Model, unordered: &mut boo
                 }
             }
             let so = o.snap();
+            {
+                // the same call into a target that has spare capacity from its earlier life
+                let mut t = q.clone();
+                t.q_reserve(64);
+                t.q_clone_from(&o);
+                if t.snap() != so {
+                    bail!("clone_from into a target with spare capacity gives a different arrangement than its source: {:?} vs {:?}", t.snap(), so);
+                }
+            }
             q.q_clone_from(&o);
             if o.snap() != so {
                 bail!("clone_from changed its source");
